@@ -4,6 +4,7 @@ import OrbitModel.Proofs.GenEqFrame
 import OrbitModel.Proofs.Connect
 import OrbitModel.Proofs.GenEqConnect
 import OrbitModel.Proofs.GenEqWatch
+import OrbitModel.Proofs.GenEqMonitor
 /-!
 # C20 — transport adapters deliver each payload once, intact, attributed to its sender
 -/
@@ -91,5 +92,26 @@ underlying pubsub (Go text of this run; finding F39) — without it no membershi
 the other watchers, whatever `peersDiff` does with the snapshots -/
 theorem watcher_closes_its_subscription_tied_to_go_text : Gen.watchMessagesOrder = Order.watchMessages :=
   gen_watchMessages_order
+
+/-- **the pairwise channel hands on exactly what its target sent, attributed to it** — for every
+sequence of messages on the pairwise topic, by the two ends and by anybody else (the topic name is
+derived from two public peer ids): every event names `p` and carries a payload `p` published, each as
+often as `p` published it, in order (after the `fix:` commit, finding F40) -/
+theorem pairwise_channel_hands_on_only_what_its_target_sent (p : Nat) (msgs : List (Nat × List Nat)) :
+    Connect.monitor p msgs = msgs.filter (fun m => m.1 == p) ∧
+    (∀ e ∈ Connect.monitor p msgs, e.1 = p ∧ e ∈ msgs) ∧
+    (∀ d, (Connect.monitor p msgs).count (p, d) = msgs.count (p, d)) :=
+  ⟨Connect.monitor_eq p msgs, Connect.monitor_sound p msgs, Connect.monitor_complete p msgs⟩
+
+/-- Refutation witness for the tree before that repair: only the end's own messages were dropped, and
+a third peer's payload was handed on as coming from the target (replayed on the real adapter:
+`tone … third=`, corpus/C20/f40) -/
+theorem third_party_payload_was_attributed_to_the_target_before_the_fix :
+    Connect.monitor0 1 2 [(2, [7]), (9, [6, 6, 6]), (1, [5])] = [(2, [7]), (2, [6, 6, 6])] ∧
+    Connect.monitor 2 [(2, [7]), (9, [6, 6, 6]), (1, [5])] = [(2, [7])] :=
+  Connect.third_party_payload_was_attributed_to_the_target
+
+/-- the sender test stands in the Go text of this run, between the read and the emit -/
+theorem sender_test_tied_to_go_text : Gen.monitorTopicOrder = Order.monitorTopic := gen_monitorTopic_order
 
 end Orbit.C20
